@@ -457,7 +457,7 @@ def m_is_reset(r):
 
 
 def m_model_checks(ck, thorough):
-    ncr = 2 if thorough else 1
+    ncr = 3 if thorough else 1
     r = ck.model_check(SPEC, "ChainArbMC", "ChainArbMC.cfg",
                        "ChainArb: 1-3 pending-close channels, every interleaving, <= %d stops" % ncr,
                        constants={"MaxCrashes": ncr}, workers=MC_WORKERS, timeout=1500, name="mc_chainarb")
